@@ -244,6 +244,11 @@ func (o *Outcome) Emit(noEvidence bool) int {
 	for _, n := range o.Set.Notes {
 		fmt.Println("   note:", n)
 	}
+	if os.Getenv("VERIF_LIST") != "" {
+		for _, ob := range o.Set.Obls {
+			fmt.Printf("   OBL ok=%v %s [%s] %s: %s\n", ob.OK, ob.Key, ob.Config, ob.Pos, ob.Detail)
+		}
+	}
 	for _, ob := range o.Set.Obls {
 		if ob.Exception != "" {
 			fmt.Printf("   EXCEPTION %s: %s\n", ob.Key, ob.Exception)
